@@ -103,7 +103,7 @@ COND_DIRS = ["", "@skip(if: true)", "@skip(if: false)", "@include(if: false)", "
 
 
 class DocGen:
-    def __init__(self, c, schema, *, illtyped=False, maxdepth=3, maxsel=2, incremental=False, op="query", name="Q"):
+    def __init__(self, c, schema, *, illtyped=False, maxdepth=3, maxsel=2, incremental=False, op="query", name="Q", free=()):
         self.c = c
         self.schema = schema
         self.ill = illtyped
@@ -112,6 +112,7 @@ class DocGen:
         self.incremental = incremental
         self.op = op
         self.name = name
+        self.free = set(free)  # choice points that are plain product dimensions (cost 0) in this family
         self.vars = {}  # name -> type string
         self.var_inputs = {}  # name -> valid_inputs list
         self.frags = []  # (name, typename, body)
@@ -218,7 +219,7 @@ class DocGen:
     def field(self, T, d, label):
         NonNull, List = self.K[0], self.K[1]
         names = self.field_menu(T, d)
-        fname = self.c.pick(names, label + ".field")
+        fname = self.c.pick(names, label + ".field", cost=0 if ("rootfield" in self.free and label == "root.0") else 1)
         alias = self.c.pick([None, "x", "y"] + [n for n in names[:3] if n != fname], label + ".alias")
         out = (alias + ": " if alias else "") + fname
         fdef = getattr(T, "fields", {}).get(fname)
@@ -234,6 +235,14 @@ class DocGen:
                 menu.append(None)
             menu += [lit for lit, _v in vi]
             menu.append("$" + aname)
+            base = a.type.of_type if isinstance(a.type, NonNull) else a.type
+            if isinstance(base, List):
+                menu.append("[$" + aname + "_item]")
+                menu.append("[" + valid_inputs(base.of_type)[0][0] + ", $" + aname + "_item]")
+            InputObject = self.K[7]
+            if isinstance(base, InputObject) and base.fields:
+                f0 = next(iter(base.fields))
+                menu.append("{" + f0 + ": $" + aname + "_" + f0 + "}")
             if self.ill:
                 menu += invalid_literals(a.type)
                 if required:
@@ -241,12 +250,26 @@ class DocGen:
             ch = self.c.pick(menu, f"{label}.arg.{aname}")
             if ch is None:
                 continue
-            if ch == "$" + aname:
-                vname = aname
-                # the variable may be declared with the argument's type or, for a non-null argument with a
-                # default / a nullable one, with the nullable type
-                self.declare(vname, a.type)
-                ch = "$" + vname
+            if "$" in ch:
+                vname = ch[ch.index("$") + 1:].rstrip("]} ")
+                if vname == aname:
+                    vt = a.type
+                elif vname.endswith("_item"):
+                    vt = base.of_type
+                else:
+                    vt = base.fields[vname[len(aname) + 1:]].type
+                # declared with the position's type, or - the near miss for VariablesInAllowedPosition - its nullable / non-null twin
+                forms = ["exact"]
+                if isinstance(vt, NonNull):
+                    forms.append("nullable")
+                else:
+                    forms.append("nonnull")
+                form = self.c.pick(forms, f"{label}.arg.{aname}.vartype", cost=0 if "var" in self.free else 1)
+                if form == "nullable":
+                    vt = vt.of_type
+                elif form == "nonnull":
+                    vt = NonNull(vt)
+                self.declare(vname, vt)
             args.append(f"{aname}: {ch}")
         if self.ill and self.c.flag(label + ".unknownarg"):
             args.append("nope: 1")
@@ -280,14 +303,15 @@ class DocGen:
             inputs = self.var_inputs[name]
             non_null = ts.endswith("!")
             # declaration: exact type, or with a default
-            decl = self.c.pick(["plain", "default"], f"var.{name}.decl")
+            vcost = 0 if "var" in self.free else 1
+            decl = self.c.pick(["plain", "default"], f"var.{name}.decl", cost=vcost)
             text = f"${name}: {ts}"
             if decl == "default":
                 text += " = " + inputs[0][0]
             var_defs.append(text)
             # runtime value
             opts = ["valid", "absent", "null", "valid2"]
-            st = self.c.pick(opts, f"var.{name}.value")
+            st = self.c.pick(opts, f"var.{name}.value", cost=vcost)
             if st == "valid":
                 values[name] = inputs[0][1]
             elif st == "valid2":
